@@ -193,6 +193,25 @@ def main(argv):
             else:
                 c.violation("request neither sent nor refused with SnmpEncodeError: %s" % exc, {"scenario": sc, "outcome": out},
                             key="api-neither")
+            # get_many(k OIDs): complete (all k varbinds, in order) when it fits, refused when its reference encoding does not
+            if sc["steps"][0]["op"] == "get_many":
+                asked = [[int(x) for x in t.split(".")] for t in sc["steps"][0]["args"][0]]
+                ref = ber.msg_community({"v1": 0, "v2c": 1}[sc["version"]], sc["community"].encode(),
+                                        ber.pdu(0xA0, 2 ** 31 - 1, 0, 0, [ber.varbind(ber.enc_oid(a), b"\x05\x00") for a in asked]))
+                if emitted:
+                    q = (out.get("requests") or [{}])[0]
+                    sent_oids = (q.get("pdu") or {}).get("oids")
+                    if sent_oids != asked:
+                        c.violation("get_many of %d OIDs (any Iterable[str]) was sent with %s varbinds: a request that fits is not sent complete"
+                                    % (len(asked), "?" if sent_oids is None else len(sent_oids)), {"scenario": sc, "outcome": {k: out.get(k) for k in ("kind", "exc", "emitted")}},
+                                    key="api-getmany-incomplete")
+                if len(ref) > MAX + 4 and exc != "SnmpEncodeError":
+                    c.violation("get_many of %d OIDs (%d octets, buffer %d) was not refused with SnmpEncodeError: %s%s"
+                                % (len(asked), len(ref), MAX, exc, ", and a datagram went out" if emitted else ""), {"scenario": sc, "outcome": {k: out.get(k) for k in ("kind", "exc", "emitted")}},
+                                key="api-getmany-oversize-accepted")
+                if len(ref) <= MAX - 4 and exc == "SnmpEncodeError":
+                    c.violation("get_many of %d OIDs (%d octets) was refused" % (len(asked), len(ref)), {"scenario": sc, "outcome": {k: out.get(k) for k in ("kind", "exc")}},
+                                key="api-getmany-fitting-refused")
             # the boundary itself: a request whose strict size is <= 4080 must go out
             if sc.get("_total") is not None and sc["steps"][0]["op"] == "get":
                 # _total was computed for request id 2^31-1 (4 content octets): sizes within 3 octets of the boundary are not judged
